@@ -3,6 +3,11 @@
 // the reader can set, without running any conversion or calculation afterwards (C13).
 //
 // Protocol (stdin):   F <fmt> <nbytes>\n<nbytes bytes of file content>      fmt: slha | gm2calc | thdm
+//                     R <fmt> <nbytes>\n<bytes>     same, but through ONE GM2_slha_io object that lives as long as the
+//                                                   process and is re-used for every R case via read_from_file()
+//                                                   (the API's way to re-use an object: it clears the old content)
+// Any number of cases per process: every F case uses a fresh GM2_slha_io, every case fresh model objects, so the
+// dump of a file must not depend on what the process read before (the driver compares with one-file processes).
 // Output per case:    BEGIN <fmt>
 //                     <name> <C99 hex float>          one line per parameter
 //                     EXC <stage> <class> <what>      if a fill stage threw (the stage's dump is omitted)
@@ -22,6 +27,7 @@
 #include <sstream>
 #include <string>
 #include <typeinfo>
+#include <unistd.h>
 
 using namespace gm2calc;
 
@@ -126,13 +132,30 @@ static void dump_basis_common(const std::string& n, const B& b)
    PM(n + "Pi_u", b.Pi_u); PM(n + "Pi_d", b.Pi_d); PM(n + "Pi_l", b.Pi_l);
 }
 
-static void do_case(const std::string& fmt, const std::string& content)
+static void do_case(const std::string& fmt, const std::string& content, bool reuse)
 {
+   static GM2_slha_io shared;       // R cases: one reader object for the whole process
+   GM2_slha_io fresh;               // F cases: a new reader object per file
+   GM2_slha_io& io = reuse ? shared : fresh;
    std::printf("BEGIN %s\n", fmt.c_str());
-   GM2_slha_io io;
    try {
-      std::istringstream is(content);
-      io.read_from_stream(is);
+      if (reuse) {
+         char path[] = "/var/tmp/cli_mirror_XXXXXX";
+         const int fd = mkstemp(path);
+         if (fd < 0) { std::printf("EXC read std::exception mkstemp-failed\nEND\n"); return; }
+         size_t off = 0;
+         while (off < content.size()) {
+            const ssize_t w = write(fd, content.data() + off, content.size() - off);
+            if (w <= 0) break;
+            off += static_cast<size_t>(w);
+         }
+         close(fd);
+         try { io.read_from_file(path); } catch (...) { unlink(path); throw; }
+         unlink(path);
+      } else {
+         std::istringstream is(content);
+         io.read_from_stream(is);
+      }
    } catch (const std::exception& e) {
       exc("read", e);
       std::printf("END\n");
@@ -182,11 +205,11 @@ int main()
       std::string cmd, fmt;
       size_t n = 0;
       ls >> cmd >> fmt >> n;
-      if (cmd != "F") { std::printf("PROTO-ERROR %s\n", line.c_str()); return 3; }
+      if (cmd != "F" && cmd != "R") { std::printf("PROTO-ERROR %s\n", line.c_str()); return 3; }
       std::string content(n, '\0');
       std::cin.read(&content[0], static_cast<std::streamsize>(n));
       if (static_cast<size_t>(std::cin.gcount()) != n) { std::printf("PROTO-ERROR short read\n"); return 3; }
-      do_case(fmt, content);
+      do_case(fmt, content, cmd == "R");
       ++ncases;
    }
    std::printf("DONE %lu\n", ncases);
